@@ -94,8 +94,8 @@ def report(prop, mod, tier, seed, results, wall):
     if tier == "thorough":
         from vf.decide import cross_check
         items = [tuple(x) for res in results for x in res.get("smt2", [])]
-        step = max(1, len(items) // 40)
-        sample = items[::step][:60]
+        step = max(1, len(items) // 36)
+        sample = items[::step][:48]
         cr, bad = cross_check(sample)
         cross = dict(rechecked=len(sample), of=len(items), answers={}, disagreements=[list(b) for b in bad])
         for _, s, a in cr: cross["answers"][f"{s}:{a}"] = cross["answers"].get(f"{s}:{a}", 0) + 1
